@@ -299,6 +299,13 @@ def _check_binding(fn, args, n_pos, kw_names):
         else:
             out.append(("bind-error", err))
         return out
+    if _is_traced(fn):
+        # the function's published signature (op_signature_from_function) must tell the same story as the Python
+        # function that was just bound: a parameter it calls required is bound by this call shape
+        for p in fn.op_signature.params:
+            if getattr(p, "required", False) and p.name not in bound:
+                out.append(("required-unbound", f"op_signature marks '{p.name}' required (has_default="
+                            f"{p.has_default() if hasattr(p, 'has_default') else '?'}) but the call shape leaves it unbound"))
     params = _effective_params(fn)
     for pname, m in bound.items():
         if pname not in params:
